@@ -276,7 +276,7 @@ func vpGen(depth int) (val, want any) {
 	case 3:
 		return nil, nil
 	case 4: // []any
-		n := vpInt(0, 2)
+		n := vpInt(0, vpParam("fan"))
 		v, w := make([]any, 0, n), make([]any, 0, n)
 		for i := 0; i < n; i++ {
 			cv, cw := vpGen(depth - 1)
@@ -284,7 +284,7 @@ func vpGen(depth int) (val, want any) {
 		}
 		return v, w
 	case 5: // []string
-		n := vpInt(0, 2)
+		n := vpInt(0, vpParam("fan"))
 		v, w := make([]string, 0, n), make([]string, 0, n)
 		for i := 0; i < n; i++ {
 			s := vpStrUpTo(1, "a-b")
@@ -292,7 +292,7 @@ func vpGen(depth int) (val, want any) {
 		}
 		return v, w
 	case 6: // map[string]any
-		n := vpInt(0, 2)
+		n := vpInt(0, vpParam("fan"))
 		v, w := map[string]any{}, map[string]any{}
 		var keys []string
 		for i := 0; i < n; i++ {
@@ -313,7 +313,7 @@ func vpGen(depth int) (val, want any) {
 		}
 		return v, w
 	case 7: // map[string]string
-		n := vpInt(0, 2)
+		n := vpInt(0, vpParam("fan"))
 		v, w := map[string]string{}, map[string]string{}
 		var keys []string
 		for i := 0; i < n; i++ {
@@ -333,7 +333,7 @@ func vpGen(depth int) (val, want any) {
 		}
 		return v, w
 	case 8: // *ordered.MapSA
-		n := vpInt(0, 2)
+		n := vpInt(0, vpParam("fan"))
 		v, w := ordered.NewMap[string, any](n), ordered.NewMap[string, any](n)
 		for i := 0; i < n; i++ {
 			k := vpStrUpTo(1, "a-b")
@@ -344,7 +344,7 @@ func vpGen(depth int) (val, want any) {
 		}
 		return v, w
 	case 9: // *ordered.MapSS
-		n := vpInt(0, 2)
+		n := vpInt(0, vpParam("fan"))
 		v, w := ordered.NewMap[string, string](n), ordered.NewMap[string, string](n)
 		for i := 0; i < n; i++ {
 			k := vpStrUpTo(1, "a-b")
